@@ -314,6 +314,41 @@ def cli_sweep(r, n_inputs):
             stats["reported"] = True
             r.violation("property-failure", {"suite": "cli_sweep", "methods": ms, "supplied": kind, "detail": bad}, found_input=True,
                         what=f"methods of several input types given at once ({ms}) with only {kind} input: {bad}"[:400])
+    # BOTH input types supplied, several files of each and not equally many (2 MaxQuant evidence files, 3 Percolator files), one
+    # remapping method per type in one command: every method must report the protein groups it reports when it is given alone with
+    # the same files (rows compared by their identifiers without decoy prefix: the tie order depends on the shared random stream)
+    if "split" in filesm and {"savitski_mq_best", "savitski"} <= names_all:
+        mq = filesm["split"]["MaxQuant"]
+        pc = filesm["split"]["Perc"]
+        pc3 = [pc[0], pc[0], pc[1]]
+        base_args = ["--mq_evidence"] + mq + ["--perc_evidence"] + pc3 + ["--fasta", filesm["fasta"]]
+
+        def ident_sets(sub):
+            out_ = {}
+            for f in sorted(os.listdir(sub)):
+                if f.startswith("pg"):
+                    h, rows = read_table(os.path.join(sub, f))
+                    out_[f] = sorted(";".join(sorted(x.replace("REV__", "") for x in row[0].split(";"))) for row in rows)
+            return out_
+        sub = tempfile.mkdtemp(prefix="both_", dir=dm)
+        rc, err = run_cli(base_args + ["--methods", "savitski_mq_best,savitski", "--protein_groups_out", os.path.join(sub, "pg.txt")], env, cwd=sub)
+        together = ident_sets(sub)
+        alone = {}
+        for m in ("savitski_mq_best", "savitski"):
+            sub1 = tempfile.mkdtemp(prefix="alone_", dir=dm)
+            rc1, err1 = run_cli(base_args + ["--methods", m, "--protein_groups_out", os.path.join(sub1, "pg.txt")], env, cwd=sub1)
+            got = ident_sets(sub1)
+            alone[m] = next(iter(got.values())) if got else None
+        stats["both_input_types_runs"] = 1
+        if "not enough values to unpack" not in err and not stats.get("reported"):
+            if rc != 0 or len(together) != 2 or sorted(map(str, together.values())) != sorted(map(str, alone.values())):
+                stats["reported"] = True
+                r.violation("property-failure", {"suite": "cli_sweep", "args": base_args, "together": {k: len(v) for k, v in together.items()},
+                                                 "alone": {k: (None if v is None else len(v)) for k, v in alone.items()}, "stderr": err[-300:]},
+                            found_input=True,
+                            what=f"2 MaxQuant + 3 Percolator files with savitski_mq_best,savitski in one command (exit {rc}): the tables list "
+                                 f"{ {k: len(v) for k, v in together.items()} } groups, the methods given alone "
+                                 f"{ {k: (None if v is None else len(v)) for k, v in alone.items()} }"[:400])
     # two methods at once
     d = tempfile.mkdtemp(prefix="c18b_", dir=core.scratch())
     files, _ = make_inputs(d, r.rng)
